@@ -62,15 +62,15 @@ CHECKS = {
  "C11": dict(level=EX, design="§6 C11",
    text="TLC enumerates the configuration space of the four product routines from spec/Configs.tla (structure, ranks, data class, eps decade, initial-guess mode incl. aliasing and reuse, dtype, seed) with the abstract expected outcome; every configuration is executed and the relative error against the dense product is measured (<= 10*eps), together with result shape, well-formedness and bitwise-unchanged arguments. The sweep's rank/shape calculus is model-checked separately (spec/Dmrg.tla) and recorded sweeps are validated against it.",
    note="Exploration: accuracy for all seeds is sampled, not proved. The model contributes the exhaustive configuration space and the sweep calculus, not the numerical bound.",
-   technique="TLC-enumerated configuration space + harness-measured error bound; TLA+ sweep calculus with trace validation"),
+   technique="TLC-enumerated configuration space + harness-measured error bound; TLA+ sweep calculus and accuracy ledger (LastChop, Converged) with TLC trace validation of hook-recorded sweeps"),
  "C12": dict(level=EX, design="§6 C12",
    text="TLC enumerates amen_solve configurations (system class x structure x rank x eps x preconditioner x max_full x local solver x guess x seed) from spec/Configs.tla; each is solved and the dense relative residual is compared with 10*eps; shape and unchanged arguments are checked.",
    note="Exploration; three well-conditioned system classes named in the property.",
-   technique="TLC-enumerated configuration space + harness-measured residual"),
+   technique="TLC-enumerated configuration space + harness-measured residual; TLA+ AMEn sweep calculus, accuracy ledger (ResTrunc, Converged) and restarted-GMRES / BiCGSTAB automaton (spec/Krylov.tla) with TLC trace validation of hook-recorded sweeps and local solves"),
  "C13": dict(level=EX, design="§6 C13",
    text="TLC enumerates the division configurations (form x structure x ranks x eps x starting-tensor mode x seed) from spec/Configs.tla; q*y is compared densely with x (<= 50*eps_solver), operands (incl. an aliased or reused starting tensor) must be unchanged, x/scalar exact.",
    note="Exploration; divisors y = 1 + z*z bounded away from zero.",
-   technique="TLC-enumerated configuration space + harness-measured q*y = x"),
+   technique="TLC-enumerated configuration space + harness-measured q*y = x; TLC trace validation of the recorded amen_divide sweeps and local GMRES calls"),
  "C14": dict(level=MC, design="§6 C14",
    text="spec/Cross.tla models the index-set and rank bookkeeping of the two-site DMRG cross (supercore evaluation size, truncation, rank kick through a possibly wide QR, |Idx[k]| = rank[k]); TLC explores it exhaustively over small shapes and every truncation-rank choice (Conformable, IdxCovers). Every configuration from spec/Configs.tla is executed with the user function wrapped; each call is logged and the event lists are validated by TLC against spec/TraceCross.tla (rows explained by some admissible rank choice, d integer columns each in [0,N[k]); for function_interpolate every value row an actual entry of the argument tensors at one multi-index). Accuracy (<= 20*eps) is measured against the exact dense tensor.",
    note="The index-range and bookkeeping statements are decided by TLC on the model and on every recorded trace; the accuracy statement is exploration-grade (measured on sampled seeds).",
@@ -78,7 +78,7 @@ CHECKS = {
  "C16": dict(level=EX, design="§6 C16",
    text="spec/Manifold.tla is the equational theory of an orthogonal projector (linear, idempotent, fixes x) over terms in z, w, x with computed normal forms; TLC checks the laws on every enumerated term and base-point structure; each term is evaluated with the real routines and compared with its normal form, together with the scalar laws (self-adjoint, residual orthogonal), the rank law and riemannian_gradient = P(dense gradient) for three f.",
    note="Exploration: floats, sampled vectors; the model decides which expressions must agree.",
-   technique="TLA+ equational theory with normal forms, TLC enumeration of terms, evaluation on torchtt against the normal form"),
+   technique="TLA+ equational theory with normal forms, TLC enumeration of terms, evaluation on torchtt against the normal form and against a dense Jacobian-range projector (also after a history of set_core on the base point)"),
  "C15": dict(level=EX, design="§6 C15",
    text="spec/Expr.tla is the typed program space of scalar-valued expressions over the differentiable TT operations (body x head x reducer) together with the choice of tracked cores; TLC enumerates every well-typed program; each is built on torchtt with watched cores and on dense arrays contracted from copies of the same leaves, and values, gradients (via grad.grad / grad.grad_list) and their shapes are compared, with a finite-difference cross-check.",
    note="Exploration: the derivative oracle is torch autograd on the dense program and finite differences; the model contributes the exhaustive, typed program space.",
